@@ -24,6 +24,13 @@ of giving the coverages: top-level `x` (default of every model), `<name>_kwargs`
 the attached models in every key order, a dictionary of an absent (related-named) species, an empty dictionary,
 explicit zero / integer coverages.  Oracle: model j is evaluated at its own dictionary's x, else at the top-level
 x, else at 0 - closed forms, nothing from pmutt's routing helper.
+
+Duplicates family (added after the seeded changes of wave 5): the same BFS, clauses and oracle, from roots whose user
+list holds *repeated* models - two or three models of one kind that are separate but equal objects (equal through
+to_dict()), the very same object attached more than once, or models that differ in a single parameter (one slope, one
+constant) - adjacent or separated by another model, next to an explicit pressure adjustment or not.  "Every attached
+model" is every element of the list: N entries contribute N times, before and after every reload / copy / second
+construction from the same list object.
 """
 import copy
 import itertools
@@ -42,7 +49,11 @@ RULE = ('BFS over histories root-construction x sequence of {dict reload, JSON r
         'family: full product class x phase {s, g} x ordered list of 1-2 (thorough 1-3) coverage models out of 6 '
         'related adsorbate names x subset of the attached models that get their own <name>_kwargs x at most one '
         'dictionary of an absent species x every order of the keys x top-level x {absent, 0.35; thorough also int 1, '
-        'and x listed after the dictionaries} x {all dictionaries filled, last one empty}')
+        'and x listed after the dictionaries} x {all dictionaries filled, last one empty}; duplicates family: the same '
+        'BFS from roots class x (phase, flag) {g, S; thorough also g disabled, None} x every list of the duplicates '
+        'alphabet (pairs and triples of one kind, near-equal pairs, a repeated pair with a third model in every '
+        'position, with an explicit pressure adjustment in every position; thorough also two interleaved pairs) x '
+        '{separate equal objects, the same object}')
 ASSUMPTIONS = [
     'correction models: GasPressureAdj, two PiecewiseCovEffect (coverage of the species itself and of a second species), '
     'one ConstantMode; every ordered list of at most 2 (quick) / 3 (thorough) distinct models, plus None and []',
@@ -55,6 +66,10 @@ ASSUMPTIONS = [
     'coverage per name (float, int 1, explicit 0.0); T = 500 K and [1200, 300, 500]; P = 0.02 bar at the top level; '
     'documented reading of the conditions: top-level keywords are the default of every attached model, '
     '<name_j>_kwargs overrides them for the model of species j only, dictionaries of other species are ignored',
+    'duplicates family: "every attached model" = every element of misc_models; two entries that are equal (or the same '
+    'object listed twice) are two attached models and contribute twice; a list with two explicit GasPressureAdj is '
+    'not explored (ambiguous with "exactly one pressure adjustment"); extra kinds A2 (coverage model of the species '
+    'itself that differs from A in one slope, same model name) and K2 (ConstantMode that differs from K in H only)',
 ]
 EXPLANATION = ('explicit-state exploration of the implementation; each history is executed on the real classes and '
                'judged against a reference list of attached models and closed-form contributions')
@@ -76,8 +91,12 @@ T_SHAPES = {
 PRESSURES = [1e-3, 1.0, 100.0]
 COVERAGES = [(0.0, 1.0), (0.3, 0.0), (1.0, 0.3)]        # (coverage of A(S), coverage of B(S))
 COV = {'A': dict(name_j='A(S)', intervals=[0.0, 0.5], slopes=[-10.0, 25.0], name='covA'),
-       'B': dict(name_j='B(S)', intervals=[0.0, 0.25, 0.75], slopes=[5.0, -7.0, 3.0], name='covB')}
+       'B': dict(name_j='B(S)', intervals=[0.0, 0.25, 0.75], slopes=[5.0, -7.0, 3.0], name='covB'),
+       # duplicates family only: A with one other slope (same species, same intervals, same model name)
+       'A2': dict(name_j='A(S)', intervals=[0.0, 0.5], slopes=[-10.0, 20.0], name='covA')}
 CONST = dict(Cp=1.2e-5, H=0.05, S=2.5e-5)               # eV/K, eV, eV/K
+CONST2 = dict(Cp=1.2e-5, H=0.08, S=2.5e-5)              # duplicates family only: K with another H
+CONSTS = {'K': CONST, 'K2': CONST2}
 
 # species polynomials (water-like; same tables as C02)
 A7_LOW = [4.19864056E+00, -2.03643410E-03, 6.52040211E-06, -5.48797062E-09, 1.77197817E-12,
@@ -99,7 +118,10 @@ PLANNED_TAGS = ['op:construct', 'op:dict', 'op:json', 'op:copy', 'op:second:g', 
                 'route:top-level-x-only', 'route:top-level-x-and-some-dicts', 'route:dicts-for-all',
                 'route:dicts-for-some', 'route:no-coverage-given', 'route:absent-species-dict', 'route:empty-dict',
                 'route:int-x', 'route:explicit-zero-x', 'route:keys-in-attachment-order', 'route:keys-in-other-order',
-                'route:dict-edited-in-place', 'route:second-species', 'route:gas', 'route:surface']
+                'route:dict-edited-in-place', 'route:second-species', 'route:gas', 'route:surface',
+                'dup:equal-objects', 'dup:same-object', 'dup:near-equal', 'dup:adjacent', 'dup:separated', 'dup:triple',
+                'dup:with-pressure-adjustment', 'dup:pressure-adjustment-auto-added', 'dup:surface',
+                'dup:after-reload', 'dup:after-copy', 'dup:second-species-from-same-list']
 
 
 def _maxlist(tier):
@@ -122,7 +144,12 @@ def bounds(tier):
                 routing=dict(names=RNAMES, coverage_per_name=RX, attached_lists=len(_r_lists(tier)),
                              phases=RPHASES, top_level_x=_r_tops(tier), top_level_x_position=_r_toppos(tier),
                              temperatures=[RT_SCALAR, RT_ARRAY], pressure=RP,
-                             calls_per_class_and_phase=sum(len(_r_calls(l, tier)) for l in _r_lists(tier))))
+                             calls_per_class_and_phase=sum(len(_r_calls(l, tier)) for l in _r_lists(tier))),
+                duplicates=dict(kinds=DUP_KINDS + ['P (gas, enabled; at most once)'], sharing=DUP_SHARE,
+                                phase_and_flag=[list(pf) for pf in _dup_pf(tier)],
+                                lists_per_class={'%s/%s' % pf: len(_dup_lists(pf[0], pf[1], tier)) for pf in _dup_pf(tier)},
+                                operations=OPS, depth='construction + 2 operations',
+                                temperature_shapes=_dup_shapes(tier, 0) + ['(after an operation: %s)' % _dup_shapes(tier, 1)]))
 
 
 def _is_gas(phase):
@@ -152,6 +179,11 @@ def shards(tier):
         for phase in RPHASES:
             for part in range(R_PARTS):
                 out.append(dict(family='routing', cls=cls, phase=phase, part=part, nparts=R_PARTS, tier=tier))
+    for cls in CLASSES:
+        for (phase, flag) in _dup_pf(tier):
+            nparts = _dup_parts(tier)
+            for part in range(nparts):
+                out.append(dict(family='dup', cls=cls, phase=phase, flag=flag, part=part, nparts=nparts, tier=tier))
     return out
 
 
@@ -166,8 +198,8 @@ def _mk_model(kind):
         d = COV[kind]
         return PiecewiseCovEffect(name_i=NAME, name_j=d['name_j'], intervals=list(d['intervals']),
                                   slopes=list(d['slopes']), name=d['name'])
-    if kind == 'K':
-        return ConstantMode(**CONST)
+    if kind in CONSTS:
+        return ConstantMode(**CONSTS[kind])
     raise ValueError(kind)
 
 
@@ -176,9 +208,15 @@ def _kind(m):
     if n == 'GasPressureAdj':
         return 'P'
     if n == 'PiecewiseCovEffect':
-        return 'A' if m.name_j == COV['A']['name_j'] else 'B'
+        if m.name_j != COV['A']['name_j']:
+            return 'B'
+        try:
+            slopes = [float(v) for v in np.ravel(m.slopes)]
+        except Exception:
+            slopes = None
+        return 'A2' if slopes == COV['A2']['slopes'] else 'A'
     if n == 'ConstantMode':
-        return 'K'
+        return 'K2' if getattr(m, 'H', None) == CONST2['H'] else 'K'
     return '?' + n
 
 
@@ -254,11 +292,12 @@ def _contribution(kind, T, P, xa, xb):
     if kind == 'P':
         return 0.0, 0.0, -math.log(P)
     if kind in COV:
-        x = xa if kind == 'A' else xb
+        x = xa if COV[kind]['name_j'] == NAME else xb
         return 0.0, _cov_energy(kind, x) / (c.R('kcal/mol/K') * T), 0.0
-    if kind == 'K':
+    if kind in CONSTS:
         R = c.R('eV/K')
-        return CONST['Cp'] / R, CONST['H'] / R / T, CONST['S'] / R
+        k = CONSTS[kind]
+        return k['Cp'] / R, k['H'] / R / T, k['S'] / R
     raise ValueError(kind)
 
 
@@ -306,6 +345,7 @@ def _check_state(sp, state, world, case, ctx, op, shapes, tier):
     phase_cls = 'gas' if _is_gas(state['phase']) else ('none' if state['phase'] is None else 'other')
     sig0 = {'cls': state['cls'], 'phase': phase_cls, 'flag': state['flag'], 'op': op.split(':')[0],
             'n': _nlabel(len(state['kinds']))}
+    sig0.update(_dup_sig(case['root']))
     ok = True
     obs_kinds = _kinds_of(sp.misc_models) or []
     ok &= ctx.equal('attached models are the user\'s models plus one pressure adjustment for an enabled gas species',
@@ -365,7 +405,9 @@ def _check_state(sp, state, world, case, ctx, op, shapes, tier):
 
 
 # ----------------------------------------------------------------------------- histories
-def _shapes_for(tier, nops):
+def _shapes_for(tier, nops, root=None):
+    if root is not None and root.get('family') == 'dup':
+        return _dup_shapes(tier, nops)
     if tier == 'quick' and nops > 0:
         return ['scalar', 'len1', 'len3']
     return ['scalar', 'len1', 'len3', 'len50']
@@ -374,8 +416,10 @@ def _shapes_for(tier, nops):
 def _replay(case, ctx, judge=True):
     """Run the history on the real classes from scratch; judge the final state (and only it)."""
     root, ops, tier = case['root'], case['ops'], case['tier']
-    user = None if root['user'] is None else [_mk_model(k) for k in root['user']]
+    user = _build_user(root)
     world = dict(user=user)
+    held = None if user is None else list(user)
+    images = None if user is None else [core.dumps(m.to_dict()) for m in user]
     sp = _construct(root['cls'], root['phase'], root['flag'], user)
     state = _ref_construct(root['cls'], root['phase'], root['flag'], root['user'])
     for op in ops:
@@ -391,7 +435,16 @@ def _replay(case, ctx, judge=True):
             ctx.tag('list:empty')
         if last.startswith('second') and _is_gas(root['phase']):
             ctx.tag('second:after-gas-root')
-        healthy = _check_state(sp, state, world, case, ctx, last, _shapes_for(tier, len(ops)), tier)
+        if root.get('family') == 'dup':
+            _dup_tags(root, state, last, ctx)
+        healthy = _check_state(sp, state, world, case, ctx, last, _shapes_for(tier, len(ops), root), tier)
+        if user is not None:
+            sig = dict(_sig_for(root, ops), getter='misc_models')
+            now = [i if (i < len(held) and m is held[i]) else -1 for i, m in enumerate(user)]
+            healthy &= ctx.equal("the caller's list still holds the objects the caller put there, in that order", now,
+                                 list(range(len(held))), sig, case)
+            healthy &= ctx.true("the caller's model objects are left alone (to_dict image as before)",
+                                [core.dumps(m.to_dict()) for m in held] == images, sig, case)
     return sp, state, world, healthy
 
 
@@ -415,8 +468,8 @@ def _sig_for(root, ops):
         st = _ref_apply(st, op, root)
     last = ops[-1] if ops else 'construct'
     phase_cls = 'gas' if _is_gas(st['phase']) else ('none' if st['phase'] is None else 'other')
-    return {'cls': st['cls'], 'phase': phase_cls, 'flag': st['flag'], 'op': last.split(':')[0],
-            'n': _nlabel(len(st['kinds']))}
+    return dict({'cls': st['cls'], 'phase': phase_cls, 'flag': st['flag'], 'op': last.split(':')[0],
+                 'n': _nlabel(len(st['kinds']))}, **_dup_sig(root))
 
 
 def _ops_for(root):
@@ -451,10 +504,16 @@ def run_shard(shard, ctx):
     if shard.get('family') == 'routing':
         return _run_routing_shard(shard, ctx)
     tier = shard['tier']
-    lists = _user_lists(shard['phase'], shard['flag'], tier)[shard['part']::shard['nparts']]
-    depth = _depth(tier)
-    for user in lists:
-        root = dict(cls=shard['cls'], phase=shard['phase'], flag=shard['flag'], user=user)
+    if shard.get('family') == 'dup':
+        lists = _dup_lists(shard['phase'], shard['flag'], tier)[shard['part']::shard['nparts']]
+        roots = [dict(cls=shard['cls'], phase=shard['phase'], flag=shard['flag'], user=user, share=share, family='dup')
+                 for (user, share) in lists]
+        depth = DUP_DEPTH
+    else:
+        lists = _user_lists(shard['phase'], shard['flag'], tier)[shard['part']::shard['nparts']]
+        roots = [dict(cls=shard['cls'], phase=shard['phase'], flag=shard['flag'], user=user) for user in lists]
+        depth = _depth(tier)
+    for root in roots:
         got = _visit(root, [], tier, ctx)
         if got is None:
             continue
@@ -474,6 +533,114 @@ def run_shard(shard, ctx):
                     if d == depth - 1:
                         ctx.sample(got[1], limit=1)
             frontier = nxt
+
+
+# ----------------------------------------------------------------------------- duplicates family (wave 5)
+# The BFS above from roots whose user list holds repeated models.  Reference model and clauses are the ones of the main
+# family: the reference list of a history is the multiset of the kinds the user listed (+ one pressure adjustment for an
+# enabled gas); every element counts.  share: 'equal' = every entry is an object of its own (entries of one kind are
+# equal through to_dict()), 'same' = entries of one kind are one object listed several times, 'near' = the list holds
+# no repeated kind, only two kinds that differ in one parameter (A / A2, K / K2).
+DUP_KINDS = ['A', 'A2', 'B', 'K', 'K2']
+DUP_SHARE = ['equal', 'same']
+DUP_NEAR = [('A', 'A2'), ('K', 'K2')]
+DUP_BASE = ['A', 'B', 'K']
+DUP_DEPTH = 2
+
+
+def _dup_pf(tier):
+    """(phase, add_gas_P_adj setting) of the roots."""
+    if tier == 'quick':
+        return [('g', 'default'), ('S', 'default')]
+    return [('g', 'default'), ('S', 'default'), ('g', 'disabled'), (None, 'default')]
+
+
+def _dup_parts(tier):
+    return 3 if tier == 'quick' else 6
+
+
+def _dup_shapes(tier, nops):
+    if tier == 'quick':
+        return ['scalar', 'len3']
+    return ['scalar', 'len1', 'len3', 'len50'] if nops == 0 else ['scalar', 'len1', 'len3']
+
+
+def _dup_lists(phase, flag, tier):
+    """[(list of kinds, share)] - every list holds a repeated kind or a near-equal pair."""
+    quick = tier == 'quick'
+    out = []
+    for r in DUP_KINDS:                                          # two of a kind
+        out += [([r, r], share) for share in DUP_SHARE]
+    for a, b in DUP_NEAR:                                        # two that differ in one parameter, both orders
+        out += [([a, b], 'near'), ([b, a], 'near')]
+    for i, r in enumerate(DUP_BASE):                             # a repeated pair and a third model in every position
+        others = [DUP_BASE[(i + 1) % 3]] if quick else [DUP_BASE[(i + 1) % 3], DUP_BASE[(i + 2) % 3]]
+        if not quick and r == 'A':
+            others.append('A2')                                  # equal pair next to a near-equal one
+        for o in others:
+            for pos in range(3):
+                lst = [r, r]
+                lst.insert(pos, o)
+                out += [(lst, share) for share in DUP_SHARE]
+    for r in (['A'] if quick else DUP_BASE):                     # three of a kind
+        out += [([r, r, r], share) for share in DUP_SHARE]
+    if _is_gas(phase) and flag == 'default':                     # explicit pressure adjustment in every position
+        for r in (['A'] if quick else DUP_BASE):
+            for pos in range(3):
+                lst = [r, r]
+                lst.insert(pos, 'P')
+                out += [(lst, share) for share in DUP_SHARE]
+    if not quick:                                                # two interleaved pairs (4 attached models)
+        for lst in (['A', 'K', 'A', 'K'], ['A', 'A', 'K', 'K'], ['A', 'K', 'K', 'A']):
+            out += [(list(lst), share) for share in DUP_SHARE]
+    return out
+
+
+def _build_user(root):
+    """The list object the user passes to the root."""
+    if root['user'] is None:
+        return None
+    if root.get('share') != 'same':
+        return [_mk_model(k) for k in root['user']]
+    made = {}
+    out = []
+    for k in root['user']:
+        if k not in made:
+            made[k] = _mk_model(k)
+        out.append(made[k])
+    return out
+
+
+def _dup_sig(root):
+    if root.get('family') != 'dup':
+        return {}
+    return {'family': 'duplicates', 'dup': root['share']}
+
+
+def _dup_tags(root, state, last, ctx):
+    user = root['user']
+    rep = [k for k in dict.fromkeys(user) if user.count(k) > 1]
+    if rep:
+        ctx.tag('dup:equal-objects' if root['share'] == 'equal' else 'dup:same-object')
+    if any(a in user and b in user for a, b in DUP_NEAR):
+        ctx.tag('dup:near-equal')
+    for k in rep:
+        idx = [i for i, u in enumerate(user) if u == k]
+        if len(idx) >= 3:
+            ctx.tag('dup:triple')
+        ctx.tag('dup:adjacent' if any(j - i == 1 for i, j in zip(idx, idx[1:])) else 'dup:separated')
+    if 'P' in user:
+        ctx.tag('dup:with-pressure-adjustment')
+    elif state['enabled']:
+        ctx.tag('dup:pressure-adjustment-auto-added')
+    if not _is_gas(state['phase']):
+        ctx.tag('dup:surface')
+    if last in ('dict', 'json'):
+        ctx.tag('dup:after-reload')
+    elif last == 'copy':
+        ctx.tag('dup:after-copy')
+    elif last.startswith('second'):
+        ctx.tag('dup:second-species-from-same-list')
 
 
 # ----------------------------------------------------------------------------- routing family (wave 4)
@@ -738,7 +905,11 @@ LEVEL_TEXT = ('Explicit-state BFS over histories of real Nasa, Nasa9 and Shomate
               'family: full product of species class x phase x ordered list of coverage models of related-named '
               'adsorbates x every way of giving the coverages (top-level x, per-species dictionaries for every subset '
               'in every key order, dictionary of an absent species, empty dictionary), each call repeated, evaluated '
-              'on a second species and after an in-place edit of the conditions.')
+              'on a second species and after an in-place edit of the conditions.  Duplicates family: the same BFS '
+              'and clauses from user lists that hold repeated models (separate equal objects, the same object listed '
+              'two or three times, models differing in one parameter; adjacent or separated, with an explicit '
+              'pressure adjustment in every position); the caller\'s list and model objects are compared with what '
+              'the caller put there after every history.')
 LEVEL_NOTE = ('User lists of <= 2 (quick) / <= 3 (thorough) models; 2 (quick) / 3 (thorough) operations after construction; '
               'explicit GasPressureAdj only where the statement is unambiguous; reload clauses rely on the C11 JSON fixes.')
 TECHNIQUE = 'explicit-state BFS over operation histories on the implementation, reference-model oracle'
